@@ -77,8 +77,8 @@ Section PartA.
     unmarshal_setrequest t r = run_ops (sr_prefix r) t (pending r) false.
   Proof.
     intros t r. unfold SetReq.unmarshal_setrequest, pending.
-    rewrite (run_phase_app _ PDel (delete_step env ko sch o (sr_prefix r))) by reflexivity.
-    destruct (run_phase o (delete_step env ko sch o (sr_prefix r)) (sr_deletes r) t false) as [[t1 ce1] [x|]]; [reflexivity|].
+    rewrite (run_phase_app _ PDel (delete_step env fo ko sch o (sr_prefix r))) by reflexivity.
+    destruct (run_phase o (delete_step env fo ko sch o (sr_prefix r)) (sr_deletes r) t false) as [[t1 ce1] [x|]]; [reflexivity|].
     rewrite (run_phase_app _ PRep (replace_step env fo ko sch o (sr_prefix r))) by reflexivity.
     destruct (run_phase o (replace_step env fo ko sch o (sr_prefix r)) (sr_replaces r) t1 ce1) as [[t2 ce2] [x|]]; [reflexivity|].
     rewrite <- (app_nil_r (map PUpd (sr_updates r))).
@@ -107,11 +107,11 @@ Section PartA.
   Qed.
 
   Lemma delete_step_ok : forall pre t p t',
-    step_op pre t (PDel p) = (t', StOk) <-> ref_delete env ko sch o pre t p = Ok t'.
+    step_op pre t (PDel p) = (t', StOk) <-> ref_delete env fo ko sch o pre t p = Ok t'.
   Proof.
     intros pre t p t'. simpl. unfold delete_step, ref_delete, delete_node.
     destruct (join_paths pre p) as [jp| |]; simpl.
-    - destruct (delete_node_st env ko (so_shadow o) sch t (elems jp)) as [t1 r].
+    - destruct (delete_node_st env fo ko (so_shadow o) sch t (elems jp)) as [t1 r].
       destruct r as [[]| |]; simpl; split; intros H; inversion H; reflexivity.
     - split; intros H; discriminate.
     - split; intros H; discriminate.
@@ -133,7 +133,7 @@ Section PartA.
   Proof.
     intros pre t u t'. simpl. unfold replace_step, ref_replace, delete_node, set_node.
     destruct (join_paths pre (fst u)) as [jp| |]; simpl.
-    - destruct (delete_node_st env ko (so_shadow o) sch t (elems jp)) as [t1 r1].
+    - destruct (delete_node_st env fo ko (so_shadow o) sch t (elems jp)) as [t1 r1].
       destruct r1 as [[]| |]; simpl.
       + destruct (set_node_st env fo ko (sn_opts o) (snd u) sch t1 (elems jp)) as [t2 r2].
         destruct r2 as [[]| |]; simpl; split; intros H; inversion H; reflexivity.
@@ -166,7 +166,7 @@ Section PartA.
     match reference_set_o env fo ko sch o t r with Ok t' => Some t' | _ => None end.
   Proof.
     intros t r. unfold pending, reference_set_o.
-    rewrite (run_strict_phase _ PDel (ref_delete env ko sch o (sr_prefix r))) by (intros; apply delete_step_ok).
+    rewrite (run_strict_phase _ PDel (ref_delete env fo ko sch o (sr_prefix r))) by (intros; apply delete_step_ok).
     destruct (fold_res _ (sr_deletes r) t) as [t1| |]; simpl; try reflexivity.
     rewrite (run_strict_phase _ PRep (ref_replace env fo ko sch o (sr_prefix r))) by (intros; apply replace_step_ok).
     destruct (fold_res _ (sr_replaces r) t1) as [t2| |]; simpl; try reflexivity.
@@ -190,10 +190,10 @@ Section PartA.
   Qed.
 
   (* ... and the plain left fold of the state transformers over the joined paths *)
-  Lemma delete_node_fst : forall sh t p t', delete_node env ko sh sch t p = Ok t' ->
-    delete_node_st env ko sh sch t p = (t', Ok tt).
+  Lemma delete_node_fst : forall sh t p t', delete_node env fo ko sh sch t p = Ok t' ->
+    delete_node_st env fo ko sh sch t p = (t', Ok tt).
   Proof.
-    intros sh t p t'. unfold delete_node. destruct (delete_node_st env ko sh sch t p) as [t1 r].
+    intros sh t p t'. unfold delete_node. destruct (delete_node_st env fo ko sh sch t p) as [t1 r].
     destruct r as [[]| |]; simpl; intros H; inversion H; reflexivity.
   Qed.
   Lemma set_node_fst : forall so x t p t', set_node env fo ko so x sch t p = Ok t' ->
@@ -203,9 +203,9 @@ Section PartA.
     destruct r as [[]| |]; simpl; intros H; inversion H; reflexivity.
   Qed.
 
-  Lemma ref_delete_inv : forall pre t p t', ref_delete env ko sch o pre t p = Ok t' ->
+  Lemma ref_delete_inv : forall pre t p t', ref_delete env fo ko sch o pre t p = Ok t' ->
     (exists jp, join_paths pre p = Ok jp) /\
-    delete_node_st env ko (so_shadow o) sch t (jelems pre p) = (t', Ok tt).
+    delete_node_st env fo ko (so_shadow o) sch t (jelems pre p) = (t', Ok tt).
   Proof.
     intros pre t p t' H. unfold ref_delete in H. destruct (join_paths pre p) as [jp| |] eqn:J; try discriminate.
     simpl in H. rewrite (join_paths_elems _ _ _ J) in H. split; [eauto | apply delete_node_fst; exact H].
@@ -219,12 +219,12 @@ Section PartA.
   Qed.
   Lemma ref_replace_inv : forall pre t u t', ref_replace env fo ko sch o pre t u = Ok t' ->
     (exists jp, join_paths pre (fst u) = Ok jp) /\
-    exists t1, delete_node_st env ko (so_shadow o) sch t (jelems pre (fst u)) = (t1, Ok tt) /\
+    exists t1, delete_node_st env fo ko (so_shadow o) sch t (jelems pre (fst u)) = (t1, Ok tt) /\
                set_node_st env fo ko (sn_opts o) (snd u) sch t1 (jelems pre (fst u)) = (t', Ok tt).
   Proof.
     intros pre t u t' H. unfold ref_replace in H. destruct (join_paths pre (fst u)) as [jp| |] eqn:J; try discriminate.
     simpl in H. rewrite (join_paths_elems _ _ _ J) in H.
-    destruct (delete_node env ko (so_shadow o) sch t (jelems pre (fst u))) as [t1| |] eqn:D; try discriminate.
+    destruct (delete_node env fo ko (so_shadow o) sch t (jelems pre (fst u))) as [t1| |] eqn:D; try discriminate.
     simpl in H. split; [eauto|]. exists t1. split; [apply delete_node_fst; exact D | apply set_node_fst; exact H].
   Qed.
 
@@ -252,13 +252,13 @@ Section PartA.
     unmarshal_setrequest t r = (t', SROk) -> t' = fold_set env fo ko sch o t r /\ joins_ok r.
   Proof.
     intros t r t' H. apply setrequest_is_reference in H. unfold reference_set_o in H.
-    destruct (fold_res (ref_delete env ko sch o (sr_prefix r)) (sr_deletes r) t) as [t1| |] eqn:D; try discriminate.
+    destruct (fold_res (ref_delete env fo ko sch o (sr_prefix r)) (sr_deletes r) t) as [t1| |] eqn:D; try discriminate.
     simpl in H.
     destruct (fold_res (ref_replace env fo ko sch o (sr_prefix r)) (sr_replaces r) t1) as [t2| |] eqn:Rp; try discriminate.
     simpl in H. split.
     - unfold fold_set.
-      assert (E1 : t1 = fold_left (del_f env ko sch o) (map (jelems (sr_prefix r)) (sr_deletes r)) t).
-      { apply (fold_res_fold_left _ _ (ref_delete env ko sch o (sr_prefix r))); [|exact D].
+      assert (E1 : t1 = fold_left (del_f env fo ko sch o) (map (jelems (sr_prefix r)) (sr_deletes r)) t).
+      { apply (fold_res_fold_left _ _ (ref_delete env fo ko sch o (sr_prefix r))); [|exact D].
         intros t0 p t0' F. apply ref_delete_inv in F. destruct F as [_ F].
         unfold del_f. rewrite F. reflexivity. }
       assert (E2 : t2 = fold_left (rep_f env fo ko sch o) (map (jupd (sr_prefix r)) (sr_replaces r)) t1).
@@ -338,10 +338,10 @@ Section PartA.
   Proof.
     intros pre t op t' H jp J. destruct op as [p|u|u]; simpl in *.
     - unfold delete_step in H. rewrite J in H.
-      destruct (delete_node_st env ko (so_shadow o) sch t (elems jp)) as [t1 r]. inversion H.
+      destruct (delete_node_st env fo ko (so_shadow o) sch t (elems jp)) as [t1 r]. inversion H.
       eapply of_res_not_join; eauto.
     - unfold replace_step in H. rewrite J in H.
-      destruct (delete_node_st env ko (so_shadow o) sch t (elems jp)) as [t1 r1].
+      destruct (delete_node_st env fo ko (so_shadow o) sch t (elems jp)) as [t1 r1].
       destruct r1 as [[]| |]; try (inversion H; fail).
       destruct (set_node_st env fo ko (sn_opts o) (snd u) sch t1 (elems jp)) as [t2 r2]. inversion H.
       eapply of_res_not_join; eauto.
@@ -424,34 +424,34 @@ Section PartA.
   Qed.
 
   Lemma ref_delete_empty : forall pfx t,
-    ref_delete env ko sch o (gp_of pfx) t empty_gp = delete_node env ko (so_shadow o) sch t pfx.
+    ref_delete env fo ko sch o (gp_of pfx) t empty_gp = delete_node env fo ko (so_shadow o) sch t pfx.
   Proof. intros pfx t. unfold ref_delete. simpl. rewrite app_nil_r. reflexivity. Qed.
 
   (* the request of a notification: its deletes, then (atomic) the subtree at the prefix, then
      its updates *)
   Theorem notif_request_reference : forall n t,
     reference_set_o env fo ko sch o t (req_of_notif n) =
-    bind (fold_res (ref_delete env ko sch o (gp_of (n_prefix n))) (map gp_of (n_deletes n)) t) (fun t0 =>
-    bind (if n_atomic n then delete_node env ko (so_shadow o) sch t0 (n_prefix n) else Ok t0) (fun t1 =>
+    bind (fold_res (ref_delete env fo ko sch o (gp_of (n_prefix n))) (map gp_of (n_deletes n)) t) (fun t0 =>
+    bind (if n_atomic n then delete_node env fo ko (so_shadow o) sch t0 (n_prefix n) else Ok t0) (fun t1 =>
       fold_res (ref_update env fo ko sch o (gp_of (n_prefix n)))
                (map (fun u => (gp_of (fst u), snd u)) (n_updates n)) t1)).
   Proof.
     intros n t. unfold reference_set_o. simpl. rewrite fold_res_app.
     destruct (fold_res _ (map gp_of (n_deletes n)) t) as [t0| |]; simpl; try reflexivity.
     destruct (n_atomic n); simpl; [|reflexivity].
-    rewrite ref_delete_empty. destruct (delete_node env ko (so_shadow o) sch t0 (n_prefix n)); reflexivity.
+    rewrite ref_delete_empty. destruct (delete_node env fo ko (so_shadow o) sch t0 (n_prefix n)); reflexivity.
   Qed.
 
   Theorem atomic_notif_deletes_prefix_first : forall n t t',
     n_atomic n = true -> n_deletes n = [] ->
     (unmarshal_notifs env fo ko sch o t [n] = (t', SROk) <->
-     exists t1, delete_node_st env ko (so_shadow o) sch t (n_prefix n) = (t1, Ok tt) /\
+     exists t1, delete_node_st env fo ko (so_shadow o) sch t (n_prefix n) = (t1, Ok tt) /\
                 fold_res (ref_update env fo ko sch o (gp_of (n_prefix n)))
                          (map (fun u => (gp_of (fst u), snd u)) (n_updates n)) t1 = Ok t').
   Proof.
     intros n t t' Ha Hd. rewrite notifs_run_requests. simpl map. rewrite run_requests_ok. simpl.
     rewrite notif_request_reference, Ha, Hd. simpl. unfold delete_node.
-    destruct (delete_node_st env ko (so_shadow o) sch t (n_prefix n)) as [t1 r]. destruct r as [[]| |]; simpl.
+    destruct (delete_node_st env fo ko (so_shadow o) sch t (n_prefix n)) as [t1 r]. destruct r as [[]| |]; simpl.
     - destruct (fold_res _ _ t1) as [t2| |] eqn:F; simpl; split; intros H.
       + exists t1. inversion H. subst. auto.
       + destruct H as [t1' [H1 H2]]. inversion H1; subst. rewrite F in H2. exact H2.
@@ -650,7 +650,7 @@ Section Refines.
   Variable sguard : dpath -> tval -> Prop.   (* update targets and payloads they cover *)
 
   (* the two per-operation lemmas (Tree/NodeProofs.v, Tree/NodeFrameProofs.v are to provide them) *)
-  Hypothesis leaves_after_delete : leaves_after_delete_stmt env ko sch o sem obs Inv dguard.
+  Hypothesis leaves_after_delete : leaves_after_delete_stmt env fo ko sch o sem obs Inv dguard.
   Hypothesis leaves_after_set_leaf : leaves_after_set_leaf_stmt env fo ko sch o sem obs Inv sguard.
 
   Local Notation req_guard := (req_guard dguard sguard).
@@ -674,7 +674,7 @@ Section Refines.
   Qed.
 
   Lemma delete_refines : forall pre t p t' m,
-    Inv t -> dguard (jelems pre p) -> ref_delete env ko sch o pre t p = Ok t' -> obs t = Ok m ->
+    Inv t -> dguard (jelems pre p) -> ref_delete env fo ko sch o pre t p = Ok t' -> obs t = Ok m ->
     Inv t' /\ exists m', obs t' = Ok m' /\ lm_equiv m' (spec_delete sem m (jelems pre p)).
   Proof.
     intros pre t p t' m Hi Hg Hf Ho. apply ref_delete_inv in Hf. destruct Hf as [_ Hf].
@@ -707,11 +707,11 @@ Section Refines.
     Inv t' /\ exists m', obs t' = Ok m' /\ lm_equiv m' (spec_set sem m r).
   Proof.
     intros t r t' m Hi [Gd [Gr Gu]] Hf Ho. unfold reference_set_o in Hf.
-    destruct (fold_res (ref_delete env ko sch o (sr_prefix r)) (sr_deletes r) t) as [t1| |] eqn:D; try discriminate.
+    destruct (fold_res (ref_delete env fo ko sch o (sr_prefix r)) (sr_deletes r) t) as [t1| |] eqn:D; try discriminate.
     simpl in Hf.
     destruct (fold_res (ref_replace env fo ko sch o (sr_prefix r)) (sr_replaces r) t1) as [t2| |] eqn:Rp; try discriminate.
     simpl in Hf.
-    destruct (phase_refines _ (ref_delete env ko sch o (sr_prefix r))
+    destruct (phase_refines _ (ref_delete env fo ko sch o (sr_prefix r))
                 (fun m p => spec_delete sem m (jelems (sr_prefix r) p))
                 (fun p => dguard (jelems (sr_prefix r) p))
                 (delete_refines (sr_prefix r))
